@@ -158,7 +158,8 @@ var wWords = []string{"a", "b", "example.com", "localhost:8080", "reverse_proxy"
 func (g *docGen) token() string {
 	if g.wonly {
 		if g.rng.Chance(1, 4) {
-			return g.rng.Pick([]string{`"a b"`, `""`, `"x"`, `"{ }"`, `"# not comment"`, `"  lead and trail  "`, `"<<EOF"`, `"{x}"`, "\"tab\there\"", "\"`bt`\""})
+			return g.rng.Pick([]string{`"a b"`, `""`, `"x"`, `"{ }"`, `"# not comment"`, `"  lead and trail  "`, `"<<EOF"`, `"{x}"`, "\"tab\there\"", "\"`bt`\"",
+				"`a b`", "``", "`x`", "`{ }`", "`# no comment`", "`  lead and trail  `", "`C:\\dir\\file`", "`say \"hi\"`", "`<<EOF`", "`{x}`"})
 		}
 		return g.rng.Pick(wWords)
 	}
